@@ -234,6 +234,19 @@ def check(ctx):
     # ------------------------------------------------------------------ FILL
     floops = [n for n in r.node.body + [x for w_ in r.node.body if isinstance(w_, ast.With) for x in w_.body]
               if isinstance(n, ast.For) and norm(n.iter).endswith(".features")]
+    if not floops:
+        # delegated column building: <list of property dicts>._to_columns() -- judged by where THAT helper takes its keys from
+        for _, c in calls_in(r):
+            if isinstance(c.func, ast.Attribute) and c.func.attr == "_to_columns":
+                tc = repo.functions.get("dataiter.list_of_dicts.ListOfDicts._to_columns")
+                comps = [n for n in body_nodes(tc.node) if isinstance(n, ast.DictComp)] if tc is not None else []
+                first_only = [n for n in comps if isinstance(n.generators[0].iter, ast.Subscript)
+                              and isinstance(n.generators[0].iter.slice, ast.Constant)]
+                if first_only:
+                    ctx.ob("FILL", r, norm(c)[:70], c, False,
+                           f"the property columns come from ListOfDicts._to_columns, whose keys are those of ONE item "
+                           f"(`for k in {norm(first_only[0].generators[0].iter)}`): a property key that the first feature lacks gets no column at all",
+                           clause="a column for every property key occurring in any feature, None where a feature lacks it")
     ctx.count("loops over raw.features in read", len(floops), 1)
     srcs = {norm(l.iter) for l in floops}
     geo = [n for n in body_nodes(r.node) if isinstance(n, ast.Assign) and isinstance(n.targets[0], ast.Subscript)
